@@ -76,7 +76,7 @@ macro_rules! slice_spec {
                 }
             }
             fn gen(t: &mut Tape, p: &Gp) -> Vec<S::V> {
-                gen_vec(t, p, S::gen)
+                gen_vec(t, p, !S::CODED, S::gen)
             }
             fn shrink(v: &Vec<S::V>) -> Vec<Vec<S::V>> {
                 let mut out = shrink_vec(v);
@@ -199,6 +199,16 @@ macro_rules! slice_spec {
             }
             fn push_read<'a, K: Sink<Self::R>>(k: &mut K, item: RI<'a, Self>) -> K::Out {
                 k.put(item)
+            }
+            fn push_owned_ref<'a, K: Sink<Self::R>>(k: &mut K, o: &'a Vec<Own<S>>, which: usize) -> K::Out {
+                match which % 3 {
+                    0 => {
+                        let b: RI<'a, Self> = IntoOwned::borrow_as(o);
+                        k.put(b)
+                    }
+                    1 => k.put(o),
+                    _ => k.put(o.as_slice()),
+                }
             }
             fn push_all_via<K: BatchSink<Self::R>>(k: &mut K, vs: &[Vec<S::V>], f: &mut Forms) {
                 let os: Vec<Vec<Own<S>>> = vs.iter().map(|v| Self::owned(v)).collect();
@@ -895,6 +905,9 @@ where
     fn push_read<'a, K: Sink<Self::R>>(k: &mut K, item: RI<'a, Self>) -> K::Out {
         S::push_read(&mut CipSink::<K, S::R, O>(k, PhantomData), item)
     }
+    fn push_owned_ref<'a, K: Sink<Self::R>>(k: &mut K, o: &'a Own<Self>, which: usize) -> K::Out {
+        S::push_owned_ref(&mut CipSink::<K, S::R, O>(k, PhantomData), o, which)
+    }
     fn push_all_via<K: BatchSink<Self::R>>(k: &mut K, vs: &[S::V], f: &mut Forms) {
         S::push_all_via(&mut CipBatch::<K, S::R, O>(k, PhantomData), vs, f)
     }
@@ -983,7 +996,14 @@ where
         format!("Columns<{},{}>", S::name(), <O as IcKind<usize>>::NAME)
     }
     fn gen(t: &mut Tape, p: &Gp) -> Vec<S::V> {
-        let n = if t.chance(20) { 9 + t.below(8) } else { t.below(if p.small { 4 } else { 9 }) };
+        let n = if !p.small && p.depth == 0 && !light() && t.chance(2) {
+            // rarely: a row around 2^8 cells wide (hundreds of column regions)
+            [255usize, 256, 257, 300][t.below(4)]
+        } else if t.chance(20) {
+            9 + t.below(8)
+        } else {
+            t.below(if p.small { 4 } else { 9 })
+        };
         let q = p.deeper();
         (0..n).map(|_| S::gen(t, &q)).collect()
     }
@@ -1054,10 +1074,22 @@ where
         const NAMES: &[&str] = &[
             "&Vec<T>", "Vec<T>", "&[T]", "[T;N]", "&[T;N]", "PushIter<Vec<T>>",
             "PushIter<slice::Iter>", "ReadColumns(region)", "ReadColumns(borrowed)",
-            "Vec<T>(spare capacity)",
+            "Vec<T>(spare capacity)", "PushIter<ReadSlice(region)>", "PushIter<ReadSliceIter(borrowed)>",
         ];
         let o: Vec<Own<S>> = v.iter().map(S::owned).collect();
         match f.pick("Columns", NAMES) {
+            10 => {
+                // a slice read from a slice region (not its first item), wrapped as an iterator
+                let mut tmp = flatcontainer::SliceRegion::<S::R>::default();
+                let _pad = tmp.push(&o);
+                let _pad = tmp.push(&o);
+                let i = tmp.push(&o);
+                k.put(PushIter(tmp.index(i)))
+            }
+            11 => {
+                let b: flatcontainer::impls::slice::ReadSlice<'_, S::R> = IntoOwned::borrow_as(&o);
+                k.put(PushIter(b.iter()))
+            }
             9 => {
                 let mut w: Vec<Own<S>> = Vec::with_capacity(o.len() * 2 + 7);
                 w.extend(o);
@@ -1084,6 +1116,16 @@ where
     }
     fn push_read<'a, K: Sink<Self::R>>(k: &mut K, item: RI<'a, Self>) -> K::Out {
         k.put(item)
+    }
+    fn push_owned_ref<'a, K: Sink<Self::R>>(k: &mut K, o: &'a Vec<Own<S>>, which: usize) -> K::Out {
+        match which % 3 {
+            0 => {
+                let b: RI<'a, Self> = IntoOwned::borrow_as(o);
+                k.put(b)
+            }
+            1 => k.put(o),
+            _ => k.put(o.as_slice()),
+        }
     }
     fn push_all_via<K: BatchSink<Self::R>>(k: &mut K, vs: &[Vec<S::V>], f: &mut Forms) {
         let os: Vec<Vec<Own<S>>> = vs.iter().map(|v| Self::owned(v)).collect();
